@@ -60,26 +60,31 @@ func (f *Frame) heapWF(name, h, alloc string) {
 	if alloc == "" {
 		return
 	}
+	// The facts speak about cells of objects that exist in this heap version (pobj p < alloc):
+	// the cells of objects allocated later are described, in the same heap version, by the facts
+	// emitted at their allocation (zero initialisation, appended elements) and must stay free here.
+	live := fmt.Sprintf("(< (pobj p) %s)", alloc)
+	livem := fmt.Sprintf("(< (pobj m) %s)", alloc)
 	switch name {
 	case "H_ptr":
-		f.ctx.Fact(fmt.Sprintf("(forall ((p Ptr)) (! (or (= (select %s p) nil) (and (< (pobj (select %s p)) %s) (not (islocalobj (pobj (select %s p)))))) :pattern ((select %s p))))", h, h, alloc, h, h))
+		f.ctx.Fact(fmt.Sprintf("(forall ((p Ptr)) (! (=> %s (or (= (select %s p) nil) (and (< (pobj (select %s p)) %s) (not (islocalobj (pobj (select %s p))))))) :pattern ((select %s p))))", live, h, h, alloc, h, h))
 	case "H_iface":
 		// a pointer boxed in a stored interface value refers to an allocated object (for values of
 		// other dynamic types unbox_Ptr is unconstrained, so this says nothing about them)
-		f.ctx.Fact(fmt.Sprintf("(forall ((p Ptr)) (! (or (= (unbox_Ptr (ival (select %s p))) nil) (and (< (pobj (unbox_Ptr (ival (select %s p)))) %s) (not (islocalobj (pobj (unbox_Ptr (ival (select %s p)))))))) :pattern ((select %s p))))", h, h, alloc, h, h))
+		f.ctx.Fact(fmt.Sprintf("(forall ((p Ptr)) (! (=> %s (or (= (unbox_Ptr (ival (select %s p))) nil) (and (< (pobj (unbox_Ptr (ival (select %s p)))) %s) (not (islocalobj (pobj (unbox_Ptr (ival (select %s p))))))))) :pattern ((select %s p))))", live, h, h, alloc, h, h))
 	case "H_slice":
-		f.ctx.Fact(fmt.Sprintf("(forall ((p Ptr)) (! (or (= (sbase (select %s p)) nil) (< (pobj (sbase (select %s p))) %s)) :pattern ((select %s p))))", h, h, alloc, h))
+		f.ctx.Fact(fmt.Sprintf("(forall ((p Ptr)) (! (=> %s (or (= (sbase (select %s p)) nil) (< (pobj (sbase (select %s p))) %s))) :pattern ((select %s p))))", live, h, h, alloc, h))
 	default:
 		// pointer-valued maps: every stored pointer refers to an allocated object
 		if strings.HasPrefix(name, "Mval|") && strings.HasSuffix(name, "|Ptr") {
 			ks := strings.Split(name, "|")[1]
-			f.ctx.Fact(fmt.Sprintf("(forall ((m Ptr) (k %s)) (! (or (= (select (select %s m) k) nil) (and (< (pobj (select (select %s m) k)) %s) (not (islocalobj (pobj (select (select %s m) k)))))) :pattern ((select (select %s m) k))))", ks, h, h, alloc, h, h))
+			f.ctx.Fact(fmt.Sprintf("(forall ((m Ptr) (k %s)) (! (=> %s (or (= (select (select %s m) k) nil) (and (< (pobj (select (select %s m) k)) %s) (not (islocalobj (pobj (select (select %s m) k))))))) :pattern ((select (select %s m) k))))", ks, livem, h, h, alloc, h, h))
 		}
 		// slice-valued maps: the backing array of every stored slice is allocated
 		if strings.HasPrefix(name, "Mval|") && strings.HasSuffix(name, "|Slice") {
 			ks := strings.Split(name, "|")[1]
 			v := fmt.Sprintf("(select (select %s m) k)", h)
-			f.ctx.Fact(fmt.Sprintf("(forall ((m Ptr) (k %s)) (! (and (or (= (sbase %s) nil) (< (pobj (sbase %s)) %s)) (<= 0 (soff %s)) (<= 0 (slen_ %s)) (<= (slen_ %s) (scap %s)) (=> (= (sbase %s) nil) (= %s nilslice)) (or (= (sbase %s) nil) (not (ismapobj (pobj (sbase %s)))))) :pattern (%s)))", ks, v, v, alloc, v, v, v, v, v, v, v, v, v))
+			f.ctx.Fact(fmt.Sprintf("(forall ((m Ptr) (k %s)) (! (=> %s (and (or (= (sbase %s) nil) (< (pobj (sbase %s)) %s)) (<= 0 (soff %s)) (<= 0 (slen_ %s)) (<= (slen_ %s) (scap %s)) (=> (= (sbase %s) nil) (= %s nilslice)) (or (= (sbase %s) nil) (not (ismapobj (pobj (sbase %s))))))) :pattern (%s)))", ks, livem, v, v, alloc, v, v, v, v, v, v, v, v, v))
 		}
 	}
 }
